@@ -38,6 +38,10 @@ LISTS = {
     'FL3': f'usize, {V}<float>',
     'FL4': f'u32, {A}<usize,8>, {V}<float>',     # element-wise comparison + elements that end off the storage alignment
     'G3': f'u32, {A}<usize,8>, {V}<Cm>',
+    'A1': f'u32, Am, u16',                        # Am: trivial copy assignment, user-provided move assignment that marks the source
+    'A2': f'{F}<Am>, u32',
+    'G4': f'u16, u32, {V}<Ce>',                  # Ce: == ignores the low bit (not bytewise identity) although the type is trivially copyable and padding-free
+    'G5': f'{F}<Ce>, Ce',
     'S16': f'{F}<u16>',                          # one multi-byte field: byte order != numeric order
     'R1': f'u32, {F}<u32>',                     # one trivially swappable/assignable run of 4 + 4n bytes, n up to 15 (C11)
 }
@@ -45,7 +49,7 @@ TWO_SPAN = {'F2', 'V3', 'M1', 'M2', 'N4', 'FF'}
 TRIVIAL = ['P1', 'P2', 'F1', 'F2', 'V1', 'V2', 'V3', 'M1']
 NONTRIVIAL = ['N1', 'N2', 'N3']
 CORE = TRIVIAL + NONTRIVIAL
-HAS_VARY = {'V1', 'V2', 'V3', 'M1', 'N2', 'E4', 'G2', 'V5', 'N4', 'V6', 'S1'}
+HAS_VARY = {'V1', 'V2', 'V3', 'M1', 'N2', 'E4', 'G2', 'V5', 'N4', 'V6', 'S1', 'G4'}
 
 # ---- layout family (Mode A) -----------------------------------------------------------------------------------------
 SIZE_T = {1: 'u8', 2: 'u16', 4: 'u32', 8: 'u64', 12: 'Bs<12>', 16: 'Bs<16>'}
@@ -94,7 +98,7 @@ def layout_ob(prop, name, lst, nelem=2, maxspan=65535, reserved=0, nvary=None, c
         name += f'/fork{nspans - 2}'
     c = dict(slack='both', abstract_memcpy=True, budget_s=900)
     if cfg: c.update(cfg)
-    return dict(prop=prop, name=f"layout/{name}/n{nelem}/s{maxspan}" + ('/reserved' if reserved else ''), harness='h_layout.cpp', defines=d, entry='h_entry', cfg=c, list=name)
+    return dict(prop=prop, name=f"layout/{name}/n{nelem}/s{maxspan}" + ({0: '', 1: '/reserved', 2: '/default-reserved'}[int(reserved)]), harness='h_layout.cpp', defines=d, entry='h_entry', cfg=c, list=name)
 
 
 # ---- attribution of an engine violation to a property ---------------------------------------------------------------
@@ -328,6 +332,10 @@ def pool_layout(prop, tier, seed, reserved=False):
     for nm, lst in (('P1', LISTS['P1']), ('P2', LISTS['P2']), ('P3', f'u16, {A}<u32,4>, u8, u32'), ('P4', f'u8, {A}<u16,2>, u8, u16')):
         obs.append(layout_ob(prop, nm, lst, nelem=8, reserved=int(reserved)))
     obs.append(layout_ob(prop, 'P3F', f'u16, {A}<u32,4>, u8, {F}<u32>', nelem=6, reserved=int(reserved)))
+    # default-constructed vectors that are reserve()d afterwards (plain lists, and FixedSize lists with all fixed sizes 0)
+    if not reserved:
+        for nm, lst in (('P2', LISTS['P2']), ('P3', f'u16, {A}<u32,4>, u8, u32'), ('P5', f'{A}<u64,8>, u8'), ('P6', f'{A}<Bs<16>,16>, u8'), ('F1', LISTS['F1'])):
+            obs.append(layout_ob(prop, nm, lst, nelem=4, reserved=2))
     for combo, cnt in packed:
         obs.append(layout_ob(prop, family_name(combo, cnt), family_list(combo, cnt), nelem=(3 if not any(k == 'V' for k, _, _ in combo) else 2), reserved=int(reserved)))
     for combo, cnt in (tails[:8] + [t for t in tails if len(t[0]) == 3] if tier == 'quick' else tails):
@@ -404,7 +412,7 @@ def c06(tier, seed):
     # "destroyed exactly once" also when an allocation inside an assignment fails (the harness and fault schedule of C17)
     for lid in NONTRIVIAL:
         for op in ('OP_ELEM_ASSIGN', 'OP_COPY_ASSIGN', 'OP_MOVE_ASSIGN'):
-            o = exc_ob(lid, op, 'st-ne', '0', 0); o['owner'] = 'C06'; obs.append(o)
+            o = exc_ob(lid, op, 'st-ne', '0', 0); o['owner'] = 'C06'; o['also'] = {'C17': 'C06'}; obs.append(o)
     return obs
 
 
@@ -506,6 +514,8 @@ def c11(tier, seed):
     for lid in REF_LISTS + (['V3', 'V2', 'P1'] if tier == 'thorough' else []):
         for part in (1, 2, 3, 4):
             obs.append(ref_ob('C11', lid, part, k0=(2 if part == 1 and tier == 'quick' else 3)))
+    for lid in ('A1', 'A2'):       # assignment kinds that differ in triviality
+        obs.append(ref_ob('C11', lid, 2))
     # long trivially assignable / swappable runs (4 + 4n bytes, n = 0..15: includes 32 and 64 bytes)
     for part in (2, 4):
         o = ref_ob('C11', 'R1', part, k0=2)
@@ -532,10 +542,11 @@ def c12(tier, seed):
     return pool_elem('C12', CORE + ['V4', 'N4'], akinds=('ae', 'st-ne', 'prop-ne') if tier == 'quick' else tuple(ALLOC_KINDS))
 
 
-def cmp_ob(prop, lid, part, domain=0, smax=None, kv=2):
+def cmp_ob(prop, lid, part, domain=0, smax=None, kv=2, indep=False):
     d = [f'-DLIST={LISTS[lid]}', f'-DPART={part}', f'-DDOMAIN={domain}', f'-DKV={kv}']
     if smax is not None: d.append(f'-DSMAX={smax}')
-    return dict(prop=prop, name=f"cmp/{lid}/part{part}/d{domain}" + (f"/kv{kv}" if kv != 2 else ''), harness='h_cmp.cpp', defines=d, entry='h_entry', cfg=dict(slack='min', budget_s=1200), list=lid)
+    if indep: d.append('-DINDEP_FIXED')
+    return dict(prop=prop, name=f"cmp/{lid}/part{part}/d{domain}" + (f"/kv{kv}" if kv != 2 else '') + ('/indep' if indep else ''), harness='h_cmp.cpp', defines=d, entry='h_entry', cfg=dict(slack='min', budget_s=1200), list=lid)
 
 
 def attribute_cmp(aid):
@@ -547,7 +558,7 @@ ATTR['h_cmp.cpp'] = attribute_cmp
 
 
 def c13(tier, seed):
-    lists = ['E1', 'E2', 'E3', 'E4', 'G1', 'G2', 'P2', 'V1', 'FL1', 'FL2', 'FL3', 'FL4', 'G3'] + ([] if tier == 'quick' else ['E5', 'F2', 'M1', 'N1'])
+    lists = ['E1', 'E2', 'E3', 'E4', 'G1', 'G2', 'P2', 'V1', 'FL1', 'FL2', 'FL3', 'FL4', 'G3', 'G5'] + ([] if tier == 'quick' else ['E5', 'F2', 'M1', 'N1', 'G4'])
     obs = []
     for lid in lists:
         obs.append(cmp_ob('C13', lid, 1, smax=(1 if lid in TWO_SPAN else None)))
@@ -565,6 +576,9 @@ def c14(tier, seed):
             obs.append(cmp_ob('C14', lid, 3, domain=0, smax=1))
     # full-width values: byte order differs from numeric order for multi-byte and signed types
     obs.append(cmp_ob('C14', 'S16', 4, domain=0, smax=1))
+    # vectors whose fixed sizes differ (0 vs. 1): an empty memcmp run on one side only
+    for lid in ('S16', 'E3', 'FF'):
+        obs.append(cmp_ob('C14', lid, 4, domain=3, smax=1, kv=1, indep=True))
     if tier == 'thorough':
         obs.append(cmp_ob('C14', 'E3', 4, domain=0, smax=1, kv=1))
     return obs
@@ -636,6 +650,9 @@ def c18(tier, seed):
             obs.append(dict(prop='C18', name=f"empty/{lid}/w{lo}", harness='h_empty.cpp', defines=d, entry='h_entry', cfg=dict(slack='min', budget_s=900), list=lid))
     obs += pool_seq('C18', ['P1', 'F1', 'V1', 'V3', 'N1', 'N2'] if tier == 'quick' else CORE, tier, ops_filter=['OP_CLEAR', 'OP_ERASE_RANGE', 'OP_POP', 'OP_ERASE'])
     obs += [cmp_ob('C18', lid, 2, smax=1) for lid in (['E1', 'G2'] if tier == 'quick' else ['E1', 'E4', 'G1', 'G2', 'V1'])]
+    # copying into an empty / fresh vector when an allocation of the copy fails: the target stays a usable empty vector (harness of C17)
+    for lid in (['V1', 'N2', 'F1'] if tier == 'quick' else ['V1', 'N2', 'F1', 'M1', 'N1', 'V2']):
+        o = exc_ob(lid, 'OP_COPY_ASSIGN', 'st-ne', '0', 0); o['owner'] = 'C18'; o['also'] = {'C17': 'C18'}; obs.append(o)
     return obs
 
 
@@ -658,7 +675,7 @@ def c19(tier, seed):
 
 
 EMPLACE_PAIRS = {13: 'Ms->Tn (converting move constructor not noexcept)', 1: 'u32->u32', 2: 'i32->u32', 3: 'u8->bool', 4: 'bool->u8', 5: 'ToColor->enum', 6: 'i32->float', 7: 'u64->double', 8: 'i32->W(int)',
-                 9: 'Ms->Tm (move counting)', 10: 'u16->i32', 11: 'i32->u8', 12: 'float->float', 14: 'Ms->Tt (trivially copyable target, move counting)'}
+                 9: 'Ms->Tm (move counting)', 10: 'u16->i32', 11: 'i32->u8', 12: 'float->float', 14: 'Ms->Tt (trivially copyable target, move counting)', 15: 'unscoped enum (1 byte) -> bool', 16: 'unscoped enum (1 byte) -> u8'}
 EMPLACE_FORMS = {1: 'contiguous lvalue', 2: 'contiguous const lvalue', 3: 'contiguous rvalue', 4: 'C array', 5: 'std::array', 6: 'node range lvalue',
                  7: 'node range rvalue', 8: 'generated range', 9: 'pointer', 10: 'move_iterator', 11: 'forward iterator', 12: 'generated iterator',
                  13: 'reverse_iterator over an array', 14: 'segmented random-access iterator (deque-like)'}
